@@ -12,7 +12,10 @@ RULE = ('the real Rmcp.establish_session / send_and_receive_raw x n / close_sess
         'in drv_c06), which validates every datagram and answers it: all 32 capability subsets of '
         'none/MD2/MD5/password/OEM, boundary-biased temporary / final session ids and initial sequence numbers '
         '(0, 1, 0x7fffffff, 0xfffffffd..0xffffffff so that the wrap is crossed), user names and passwords of 0..16 '
-        'bytes, privilege levels 2..5, 0..8 subsequent requests, a second session on the same Session object, '
+        'bytes, ANONYMOUS LOGIN (the empty user name with the empty password, given as \'\' and as b\'\', against all 32 '
+        'capability subsets; each of the two empty alone against the 12 subsets that offer none next to MD5 / password; '
+        'also over two sessions, with retransmissions and with the clean-up close), '
+        'privilege levels 2..5, 0..8 subsequent requests, a second session on the same Session object, '
         'silence or an error completion code injected at every datagram of the handshake, a request and the '
         'close, and max_retries 0..3 with datagrams lost (Spec.BmcSession.stepLost: the monitor counts them, the BMC '
         'does not act) at every in-session and handshake position, in runs within and beyond the retry budget, so '
@@ -926,6 +929,27 @@ def _scenarios(rng, tier):
     for n in range(17):
         out.append(('user-len', _scenario(rng, user=_user(rng, n), caps=0x14)))
         out.append(('pw-len', _scenario(rng, pw=_pw(rng, n), caps=rng.choice([0x04, 0x10]))))
+    # ANONYMOUS LOGIN - the EMPTY user name together with the EMPTY password (0 bytes each: legal under "all user names
+    # and passwords up to 16 bytes"; the null user of IPMI, whose MD5 / straight key is sixteen zero bytes), the password
+    # given as '' and as b'' - against EVERY capability subset; and each of the two empty alone against every subset
+    # that offers none NEXT TO a stronger implemented type (MD5 / password): the type asked for in Get Session
+    # Challenge, used for Activate Session and carried by every datagram after it is the strongest one offered that the
+    # library implements, whatever the credentials are (Props/C06.chosen_type_on_every_datagram)
+    empty_pw = [{'kind': 'str', 'text': ''}, {'kind': 'bytes', 'hex': ''}]
+    for _ in range(reps):
+        for i, c in enumerate(subsets):
+            out.append(('anonymous', _scenario(rng, caps=c, user='', pw=empty_pw[(i + _) % 2])))
+        for i, c in enumerate(subsets):
+            if c & 0x01 and c & 0x14:
+                out.append(('empty-user', _scenario(rng, caps=c, user='', pw=_pw(rng, rng.randrange(1, 17)))))
+                out.append(('empty-password', _scenario(rng, caps=c, user=_user(rng, rng.randrange(1, 17)),
+                                                        pw=empty_pw[i % 2])))
+    # ... on objects that carry a second session, with retransmissions, with the clean-up close after a fault
+    for c in (0x05, 0x11, 0x15, 0x37):
+        out.append(('anonymous-two-sessions', _scenario(rng, caps=c, user='', pw=rng.choice(empty_pw), rounds=2,
+                                                        max_retries=rng.choice([0, 2]))))
+        out.append(('anonymous-fault-then-cleanup', _scenario(rng, caps=c, user='', pw=rng.choice(empty_pw), n=1,
+                                                              inject={str(rng.choice([2, 3, 4, 5])): 'silent'}, closes='c')))
     for p in (2, 3, 4, 5):
         out.append(('priv', _scenario(rng, priv=p)))
     # faults at every datagram: handshake 0..4, first request 5, close
